@@ -12,6 +12,9 @@ def run(pid, tier):
         if pid in ("C03", "C07", "C15"):
             import dns_rig
             return dns_rig.check(pid, tier)
+        if pid == "C05":
+            import ingest_check
+            return ingest_check.check(pid, tier)
         if pid == "C17":
             import radv_check
             return radv_check.check(pid, tier)
